@@ -649,6 +649,47 @@ def reuse_corpus():
                        {"sys": 0, "rwa": 11700.0, "setrwa": False}]}]
 
 
+def call_order_monitor(chk, tier):
+    """the order of legitimate public calls before the calculation does not matter: on one of two identically built aggregates
+    Aggregate.diagonalize() is called BEFORE anything has asked for its operators; the spectra of the two are the same, and the
+    dipole operator handed out is the site-basis one in both."""
+    import io
+    import contextlib
+    import numpy
+    import quantarhei as qr
+    r = cm.rng(PID + "order")
+    for k in range(3 if tier == "quick" else 16):
+        c = gen_case(r, 1000 + k, nmol=r.choice([2, 3]), tensor=False)
+        c["kind"], c["mult"], c["remainder"], c["prequery"] = "call_order", 1, None, None
+        if not c["geometry"] and not any(abs(v) > 0 for v in c["couplings"].values()):
+            c["couplings"][sorted(c["couplings"])[0]] = 120.0
+        try:
+            specs, dips = [], []
+            for first in (False, True):
+                with contextlib.redirect_stdout(io.StringIO()):
+                    time, system, _cfs = build(c)
+                    if first:
+                        system.diagonalize()
+                    ac = qr.AbsSpectrumCalculator(time, system=system)
+                    with qr.energy_units("1/cm"):
+                        ac.bootstrap(rwa=c["rwa"])
+                    specs.append(numpy.array(ac.calculate(raw=True).data, dtype=float))
+                    dips.append(numpy.array(system.get_TransitionDipoleMoment().data).copy())
+            chk.count("call_order:diagonalize_first")
+            chk.case(("call_order", k), True)
+            sc = max(1e-300, float(numpy.max(numpy.abs(specs[0]))))
+            dev = float(numpy.max(numpy.abs(specs[0] - specs[1])))
+            if dev > 1e-9 * sc:
+                chk.violation("call_order:spectrum", "the spectrum of an aggregate on which diagonalize() was called before the calculation differs from "
+                              "that of an identically built aggregate by %.3g (relative %.3g)" % (dev, dev / sc), "monitor", c)
+            ddev = float(numpy.max(numpy.abs(dips[0] - dips[1])))
+            if ddev > 1e-9 * max(1.0, float(numpy.max(numpy.abs(dips[0])))):
+                chk.violation("call_order:dipole_operator", "after the calculation the dipole operators of the two aggregates differ by %.3g" % ddev,
+                              "monitor", c)
+        except Exception as e:
+            chk.violation("call_order:exception", "call-order monitor raised %r" % (e,), "monitor", c)
+
+
 def main():
     chk = cm.Check(PID, args.tier)
     chk.rule = ("molecules, dimers, trimers; transition energies within +-250 1/cm of the RWA frequency (lines resolved inside the window), "
@@ -686,6 +727,8 @@ def main():
         r2 = cm.rng(PID + "/reuse")
         cases += reuse_corpus() + [gen_reuse(r2, k) for k in range(10 if args.tier == "quick" else 80)]
     run(chk, cases)
+    if not args.replay:
+        call_order_monitor(chk, args.tier)
     chk.finish()
 
 
